@@ -54,8 +54,8 @@ func init() {
 			"Per value: decode(encode(v,rid))==v, encode(v,ridMax) < encode(next(v),ridMin) bytewise (adjacent strict monotonicity => all pairs), " +
 			"encode(v,ridMin) <= encode(v,rid) <= encode(v,ridMax). Non-trivial = block containing a sign change, exponent change or byte-carry boundary between adjacent values; distinct by block id",
 		Assumptions: []string{"byte-wise comparison of the encoded key is what the index containers use (Go string comparison of the Varchar value)", "NaN keys and strings containing NUL bytes are outside the property's domain"},
-		NumCases: func(env *core.Env) int { return c18IntBlocks + c18FloatBlocks + c18StrCases + c18RidCases },
-		RunCase:  c18Run,
+		NumCases:    func(env *core.Env) int { return c18IntBlocks + c18FloatBlocks + c18StrCases + c18RidCases },
+		RunCase:     c18Run,
 		Extra: func(env *core.Env, agg *core.Aggregate) map[string]any {
 			return map[string]any{"exhaustive": env.Thorough(), "exhaustive_scope": "all int32 and all non-NaN float32 (thorough tier only); strings and row ids are sampled"}
 		},
